@@ -621,6 +621,8 @@ func (tt *TermTable) FPRound(mode string, a *Term) *Term {
 			return tt.fpConst(a.sort, math.Trunc(x))
 		case "RNE":
 			return tt.fpConst(a.sort, math.RoundToEven(x))
+		case "RNA":
+			return tt.fpConst(a.sort, math.Round(x))
 		}
 	}
 	return tt.mk("fp.roundToIntegral", a.sort, 0, mode, 0, 0, a)
@@ -844,6 +846,8 @@ func Eval(t *Term, m Model, cache evalCache) uint64 {
 			x = math.Trunc(x)
 		case "RNE":
 			x = math.RoundToEven(x)
+		case "RNA":
+			x = math.Round(x)
 		}
 		r = fpOut(t.sort, x)
 	case "fp.eq":
